@@ -8,11 +8,13 @@ EXPLANATION = ("gix-traverse: in the simple walk (filtered/initial tips, by-comm
                "is dominated by `seen.insert(id)` on the same binding and cannot be reached from its false (already present) edge within the same iteration; "
                "re-keying of already gated tips in sorting() is the one listed non-instance. In the topo walk the explore and indegree queue insertions "
                "are on the `!state.contains(FLAG)` edge and preceded by `*state |= FLAG`. The Kahn-style topo_queue push (gated by indegree) is not part of the claim. "
-               "Order, first-parent/cut-off semantics and equality with `git rev-list` are not decided.")
+               "First-parent mode: in next_by_topology no path leads from a parent's seen.insert back to the parent-loop header without re-reading self.parents. "
+               "Order, cut-off semantics and equality with `git rev-list` are not decided.")
 EXCEPT = {"sorting": "re-keys the tips that were test-and-set when they were added (filtered()/new())"}
 
 
 def run(db, chk):
+    first_parent_rule(db, chk)
     fns = [f for f in db.by_crate["gix_traverse"] if f.kind != "promoted" and f.file.endswith("commit/simple.rs")]
     chk.floor("functions in commit/simple.rs", len(fns), 10)
     n = 0
@@ -55,3 +57,26 @@ def run(db, chk):
                     ok = True
             chk.ob("queue-insertion-gated-by-flag", "%s %s insert@%d" % (nm, q, s.line), ok, "insertion must be on the `!state.contains(%s)` edge after setting the flag" % flag, s.where(), key="gated-flag|%s" % nm)
     chk.floor("gated topo queue insertions", m, 2)
+
+
+def first_parent_rule(db, chk):
+    """first-parent mode follows only first parents: in next_by_topology every loop over a commit's parents (the loops that test-and-set `seen`)
+    re-tests self.parents on every iteration - no path leads from the seen.insert of one parent back to the loop header (the next parent) without
+    passing through a read of the mode's discriminant."""
+    f = db.one(r"^gix_traverse::commit::simple::.*::next_by_topology$")
+    fl = Flow(f)
+    gates = [c for c in f.calls() if c.is_(r"HashSet::<T, S, A>::insert$") and ".seen" in recv_fields(fl, c.args[0])]
+    mode_blocks = {bi for bi, si, pl, rv, ln, mc in f.assigns() if rv[0] == "discr" and ".parents" in [x for x in rv[1][1:] if isinstance(x, str)]}
+    chk.floor("next_by_topology: parent loops gated by seen.insert", len(gates), 2)
+    chk.floor("next_by_topology: reads of the parents mode", len(mode_blocks), 2)
+    for g in gates:
+        loops_ = [l for l in f.loops() if g.block in l["body"]]
+        if not loops_:
+            chk.anchor_lost("next_by_topology: loop around seen.insert@%d" % g.line)
+            continue
+        lp_ = min(loops_, key=lambda l: len(l["body"]))
+        r = f.reach_from(g.block, avoid=mode_blocks)
+        leak = [(s_, h) for (s_, h) in lp_["backedges"] if s_ in r and s_ in lp_["body"]]
+        chk.ob("first-parent-stops-after-first", "next_by_topology parent loop@%d" % g.line, not leak,
+               "the next parent can be taken without re-testing Parents::First (e.g. when the first parent was already seen): first-parent mode would follow other parents",
+               g.where(), key="first-parent|next_by_topology|%d" % gates.index(g))
